@@ -279,6 +279,63 @@ def _check_main(P: Project, R: Report) -> None:
                          f"id := `{o[:70]}` goes through {conv}: an integer id comes back as a string (or vice versa) and no longer equals what the caller sent",
                          sample=f"R2 {cname}:{f.qual}:{d.lineno} id := {o[:60]}")
     R.need(n_synth >= 8, f"only {n_synth} synthesised envelopes with an id found in the carriers (12 confirmed by hand)")
+    # … and ids are compared as they are: a comparison that converts one side only (`str(reply_id) == message_id`) holds for
+    # string ids and fails for integer ids — the carrier then treats the genuine reply as something else
+    from ..model import local_values as _lv
+
+    def _raw_id_source(e) -> bool:
+        t = ast.unparse(e)
+        return t.endswith(".id") or ".get('id')" in t or "['id']" in t or (isinstance(e, ast.Call) and call_name(e) == "getattr" and len(e.args) >= 2 and ast.unparse(e.args[1]) == "'id'")
+
+    def _converted_how(f_, e, depth=0):
+        """'conv' if the value is a str()/int() copy of an id on every definition, 'raw' if it is an id as received, None if unknown"""
+        if depth > 4:
+            return None
+        if isinstance(e, ast.Call) and call_name(e) in CONVERTERS and e.args:
+            return "conv"
+        if _raw_id_source(e):
+            return "raw"
+        if isinstance(e, ast.Name):
+            vals = [v for v in _lv(f_.node).get(e.id, []) if v is not None]
+            if vals:
+                kinds = {_converted_how(f_, v, depth + 1) for v in vals}
+                return kinds.pop() if len(kinds) == 1 else ("raw" if "raw" in kinds else None)
+            if e.id in f_.params():
+                idx = [p_ for p_ in f_.positional_params() if p_ != "self"].index(e.id) if e.id in [p_ for p_ in f_.positional_params() if p_ != "self"] else None
+                kinds = set()
+                for g_ in P.funcs_in(f_.module.name):
+                    for c_ in walk_local(g_.node):
+                        if isinstance(c_, ast.Call) and P.resolve_call(g_, c_) is f_:
+                            a_ = kwarg(c_, e.id)
+                            if a_ is None and idx is not None:
+                                pos_ = [p_ for p_ in f_.positional_params() if p_ != "self"]
+                                if not any(isinstance(x_, ast.Starred) for x_ in c_.args[: idx + 1]):
+                                    a_ = c_.args[idx] if idx < len(c_.args) else None
+                                elif len(pos_) - idx <= len(c_.args) and not any(isinstance(x_, ast.Starred) for x_ in c_.args[-(len(pos_) - idx):]):
+                                    a_ = c_.args[-(len(pos_) - idx)]  # `f(*head, x)`: counted from the end
+                            if a_ is not None:
+                                kinds.add(_converted_how(g_, a_, depth + 1))
+                if kinds:
+                    return "raw" if "raw" in kinds else (kinds.pop() if len(kinds) == 1 else None)
+        return None
+
+    n_cmp = 0
+    for cname, mod in CARRIERS.items():
+        m = P.module(mod)
+        for f in P.funcs_in(mod):
+            for n in walk_local(f.node):
+                if not (isinstance(n, ast.Compare) and len(n.ops) == 1 and isinstance(n.ops[0], (ast.Eq, ast.NotEq))):
+                    continue
+                a, b = n.left, n.comparators[0]
+                for conv_side, other in ((a, b), (b, a)):
+                    if isinstance(conv_side, ast.Call) and call_name(conv_side) in CONVERTERS and conv_side.args and "id" in ast.unparse(conv_side).lower() and "id" in ast.unparse(other).lower() \
+                            and not (isinstance(other, ast.Call) and call_name(other) in CONVERTERS) and not isinstance(other, ast.Constant):
+                        n_cmp += 1
+                        how = _converted_how(f, other)
+                        R.ob("R2", f"{cname}:{f.qual}: `{ast.unparse(n)[:50]}` compares like with like", how != "raw", f"{m.rel}:{n.lineno}",
+                             f"`{ast.unparse(conv_side)[:40]}` is a converted copy while `{ast.unparse(other)[:30]}` reaches this comparison as the id was received (e.g. from `.get('id')` at a call site): for an integer id the two are never equal, so the reply to that request is not recognised as its reply — the carrier goes on as if none had come (a synthesised error follows the result, or a waiter is never completed)",
+                             sample=f"R2 {cname}:{f.qual}: {ast.unparse(n)[:50]} ({how or 'origin of the other side not visible'})")
+    R.extra["one_sided_id_comparisons"] = n_cmp
 
     # ------------------------------------------------------------------ R3
     n_codec = 0
